@@ -118,13 +118,16 @@ class Effects:
     def writers(self, field):
         """all instantiated functions that directly write `field`."""
         out = []
+        cands = []
         for fid, b in self.F.bodies.items():
             if not b["inst"]:
                 continue
             if field in b.get("mems", ()) or any(self.F.fn(c)["name"] in (field, field[:-1] if field.endswith("s") else field)
                                                  for c in b.get("calls", ())):
-                if field in self.direct(fid):
-                    out.append(fid)
+                cands.append(fid)
+        for fid in self.F.representatives(cands):
+            if field in self.direct(fid):
+                out.append(fid)
         return out
 
 
